@@ -1,12 +1,527 @@
-//! C06 - not implemented yet
-use crate::common::Report;
+//! C06 - graph optimisation preserves meaning and interface.
+//! Bounded-exhaustive inlined graphs (E2 recipes x decoration variants) and compiled contexts, executed node by
+//! node before and after optimize_context with replayed randomness.
+use super::c01;
+use crate::common::{catch, hash_str, Report};
+use crate::exec::{first_line, new_eval, run_global, Oracle, Plan};
+use crate::gen::{self, Leaf, Recipe};
+use crate::mpcx;
+use crate::vals;
+use ciphercore_base::custom_ops::MappedContext;
+use ciphercore_base::data_types::{array_type, scalar_type, ScalarType, Type, BIT, INT32, UINT8};
+use ciphercore_base::data_values::Value;
+use ciphercore_base::evaluators::simple_evaluator::SimpleEvaluator;
+use ciphercore_base::graphs::{contexts_deep_equal, create_context, Context, Node, NodeAnnotation, Operation};
+use ciphercore_base::inline::inline_ops::InlineMode;
+use ciphercore_base::optimizer::optimize::optimize_context;
+use rayon::prelude::*;
+use serde_json::{json, Value as J};
+use std::collections::{BTreeSet, HashMap, HashSet};
 
-pub fn run(_r: &Report) -> i32 {
-    println!("MACHINERY-ERROR property=C06 check not implemented");
-    2
+pub const VARIANTS: [&str; 9] = [
+    "plain",
+    "unused-named-input",
+    "dangling-node",
+    "nop-send+private",
+    "plus-random",
+    "a2b-b2a-chain",
+    "duplicated-step",
+    "all-constant-leaves",
+    "prf-mask",
+];
+
+/// Builds the recipe with a decoration. Err = not applicable / rejected.
+fn build_variant(r: &Recipe, variant: usize) -> Result<Context, String> {
+    let rr = r.clone();
+    let res = catch(move || -> ciphercore_base::errors::Result<Option<Context>> {
+        let c = create_context()?;
+        let g = c.create_graph()?;
+        let mut nodes: Vec<Node> = vec![];
+        if variant == 1 {
+            let u = g.input(array_type(vec![3], INT32))?;
+            u.set_name("unused_first")?;
+        }
+        for (li, l) in rr.leaves.iter().enumerate() {
+            match l {
+                Leaf::Input(t) => {
+                    if variant == 7 {
+                        // every leaf becomes a constant
+                        let alph = gen::input_alphabet(t);
+                        nodes.push(g.constant(t.clone(), alph[(li + 1) % alph.len()].clone())?);
+                    } else {
+                        let n = g.input(t.clone())?;
+                        if variant == 1 {
+                            n.set_name(&format!("in{}", li))?;
+                        }
+                        nodes.push(n);
+                    }
+                }
+                Leaf::Const(t, e) => nodes.push(g.constant(t.clone(), vals::arr_value(e, &t.get_scalar_type()))?),
+            }
+        }
+        if variant == 7 {
+            // keep the input interface non-empty: one named, unused input
+            let u = g.input(scalar_type(BIT))?;
+            u.set_name("only_input")?;
+        }
+        if variant == 1 {
+            let u = g.input(scalar_type(UINT8))?;
+            u.set_name("unused_last")?;
+        }
+        for (si, s) in rr.steps.iter().enumerate() {
+            let mut nn = gen::apply(&g, &nodes, s)?;
+            if variant == 3 && si == 0 {
+                nn = nn.nop()?;
+                nn.add_annotation(NodeAnnotation::Send(1, 2))?;
+            }
+            if variant == 6 && si + 1 == rr.steps.len() {
+                let dup = gen::apply(&g, &nodes, s)?;
+                nodes.push(nn.clone());
+                let t = g.create_tuple(vec![nn.clone(), dup])?;
+                nn = t;
+            }
+            nodes.push(nn);
+        }
+        let mut out = nodes.last().unwrap().clone();
+        match variant {
+            2 => {
+                let d = nodes[0].clone();
+                let _dangling = g.create_tuple(vec![d.clone(), d])?.tuple_get(1)?.nop()?;
+            }
+            3 => {
+                out.add_annotation(NodeAnnotation::Private)?;
+                let o2 = out.nop()?;
+                o2.add_annotation(NodeAnnotation::Send(0, 1))?;
+                out = o2.nop()?;
+            }
+            4 => {
+                let t = out.get_type()?;
+                let rnd = g.random(t.clone())?;
+                let rnd2 = g.random(t.clone())?;
+                out = if t.is_array() || t.is_scalar() {
+                    out.add(rnd)?.subtract(rnd2)?
+                } else {
+                    g.create_tuple(vec![out, rnd, rnd2])?
+                };
+            }
+            5 => {
+                let t = out.get_type()?;
+                if !(t.is_array() || t.is_scalar()) {
+                    return Ok(None);
+                }
+                let st = t.get_scalar_type();
+                if st == BIT {
+                    // bit array [.., 8] -> u8 -> bits -> i8-typed view
+                    out = out.b2a(UINT8)?.a2b()?.b2a(ScalarType::I8)?.a2b()?;
+                } else {
+                    out = out.a2b()?.b2a(st)?.a2b()?.b2a(st)?;
+                }
+            }
+            8 => {
+                let t = out.get_type()?;
+                if !(t.is_array() || t.is_scalar()) {
+                    return Ok(None);
+                }
+                let key = g.random(array_type(vec![128], BIT))?;
+                let m1 = g.add_node(vec![key.clone()], vec![], Operation::PRF(1, t.clone()))?;
+                let m2 = g.add_node(vec![key], vec![], Operation::PRF(2, t.clone()))?;
+                out = out.add(m1.clone())?.subtract(m2)?.add(m1)?;
+            }
+            _ => {}
+        }
+        g.set_output_node(out)?;
+        g.finalize()?;
+        c.set_main_graph(g)?;
+        c.finalize()?;
+        Ok(Some(c))
+    });
+    match res {
+        Ok(Ok(Some(c))) => Ok(c),
+        Ok(Ok(None)) => Err("not applicable".into()),
+        Ok(Err(e)) => Err(first_line(&e.to_string())),
+        Err(p) => Err(format!("panic: {}", p)),
+    }
 }
 
-pub fn replay(_r: &Report, _rec: &serde_json::Value) -> i32 {
-    println!("MACHINERY-ERROR property=C06 replay not implemented");
-    2
+/// Random nodes of the optimised graph answer with the value their pre-image drew.
+struct ReplayRandom {
+    script: HashMap<usize, Value>,
+    missing: usize,
+}
+impl Oracle for ReplayRandom {
+    fn random(&mut self, _p: usize, idx: usize, _t: &Type) -> Option<Value> {
+        match self.script.get(&idx) {
+            Some(v) => Some(v.clone()),
+            None => {
+                self.missing += 1;
+                None
+            }
+        }
+    }
+    fn random_perm(&mut self, _p: usize, idx: usize, _n: u64) -> Option<Value> {
+        self.script.get(&idx).cloned()
+    }
+}
+
+fn send_set(n: &Node) -> BTreeSet<(u64, u64)> {
+    n.get_annotations()
+        .unwrap_or_default()
+        .into_iter()
+        .filter_map(|a| if let NodeAnnotation::Send(s, r) = a { Some((s, r)) } else { None })
+        .collect()
+}
+
+fn live_nodes(g: &ciphercore_base::graphs::Graph) -> HashSet<u64> {
+    let mut seen = HashSet::new();
+    let mut stack = vec![g.get_output_node().unwrap()];
+    while let Some(n) = stack.pop() {
+        if seen.insert(n.get_id()) {
+            for d in n.get_node_dependencies() {
+                stack.push(d);
+            }
+        }
+    }
+    seen
+}
+
+pub struct Stats {
+    pub evals: u64,
+    pub nodes_compared: u64,
+    pub removed_nodes: u64,
+    pub sends_checked: u64,
+    pub randoms_replayed: u64,
+}
+
+/// The whole oracle for one context. Err((kind, message)).
+pub fn check_context(ctx: &Context, inputs: &[Vec<Value>], st: &mut Stats) -> Result<(), (String, String)> {
+    let c2 = ctx.clone();
+    let opt: MappedContext = match catch(move || optimize_context(&c2, SimpleEvaluator::new(Some([5u8; 16])).unwrap())) {
+        Ok(Ok(o)) => o,
+        Ok(Err(e)) => return Err(("optimize-error".into(), first_line(&e.to_string()))),
+        Err(p) => return Err(("optimize-panic".into(), p)),
+    };
+    let octx = opt.get_context();
+    let g = ctx.get_main_graph().unwrap();
+    let og = octx.get_main_graph().map_err(|e| ("no-main-graph".to_string(), e.to_string()))?;
+    let plan = Plan::new(&g).map_err(|e| ("not-inlined".to_string(), e))?;
+    let oplan = Plan::new(&og).map_err(|e| ("optimised-not-inlined".to_string(), e))?;
+    // (3) input interface
+    let ins = |p: &Plan| -> Vec<(Type, Option<String>)> {
+        p.inputs.iter().map(|i| (p.nodes[*i].ty.clone(), p.nodes[*i].node.get_name().unwrap_or(None))).collect()
+    };
+    let (a, b) = (ins(&plan), ins(&oplan));
+    if a != b {
+        return Err(("input-interface-changed".into(), format!("inputs before {:?} after {:?}", a.iter().map(|x| (format!("{}", x.0), x.1.clone())).collect::<Vec<_>>(), b.iter().map(|x| (format!("{}", x.0), x.1.clone())).collect::<Vec<_>>())));
+    }
+    // forward map original node id -> optimised node id (main graph)
+    let mut fwd: HashMap<usize, usize> = HashMap::new();
+    for pn in plan.nodes.iter() {
+        if opt.mappings.contains_node(&pn.node) {
+            let im = opt.mappings.get_node(&pn.node);
+            if im.get_graph() == og {
+                fwd.insert(pn.node.get_id() as usize, im.get_id() as usize);
+            } else {
+                return Err(("image-in-foreign-graph".into(), format!("node {} maps outside the optimised main graph", pn.node.get_id())));
+            }
+        } else {
+            st.removed_nodes += 1;
+        }
+    }
+    let live = live_nodes(&g);
+    // the output must stay mapped to the output
+    match fwd.get(&plan.output) {
+        Some(o) if *o == oplan.output => {}
+        other => return Err(("output-not-mapped-to-output".into(), format!("output node {} maps to {:?}, optimised output is {}", plan.output, other, oplan.output))),
+    }
+    // (4) Send annotations
+    for pn in plan.nodes.iter() {
+        let s = send_set(&pn.node);
+        if s.is_empty() || !live.contains(&pn.node.get_id()) {
+            continue;
+        }
+        st.sends_checked += 1;
+        match fwd.get(&(pn.node.get_id() as usize)) {
+            None => return Err(("send-node-dropped".into(), format!("output-relevant node {} with Send {:?} has no image", pn.node.get_id(), s))),
+            Some(im) => {
+                let t = send_set(&oplan.nodes[*im].node);
+                if !s.is_subset(&t) {
+                    return Err(("send-annotation-lost".into(), format!("node {} carries Send {:?}, its image {} carries {:?}", pn.node.get_id(), s, im, t)));
+                }
+            }
+        }
+    }
+    let mut origin_sends: HashMap<usize, BTreeSet<(u64, u64)>> = HashMap::new();
+    for pn in plan.nodes.iter() {
+        if let Some(im) = fwd.get(&(pn.node.get_id() as usize)) {
+            origin_sends.entry(*im).or_default().extend(send_set(&pn.node));
+        }
+    }
+    for on in oplan.nodes.iter() {
+        let t = send_set(&on.node);
+        if !t.is_empty() {
+            let have = origin_sends.get(&(on.node.get_id() as usize)).cloned().unwrap_or_default();
+            if !t.is_subset(&have) {
+                return Err(("send-annotation-invented".into(), format!("optimised node {} carries Send {:?} but the original nodes mapping to it carry {:?}", on.node.get_id(), t, have)));
+            }
+        }
+    }
+    // (5) reload: serde round trip re-adds every node through type inference
+    let txt = serde_json::to_string(&octx).map_err(|e| ("serialize-error".to_string(), e.to_string()))?;
+    let t2 = txt.clone();
+    let reloaded: Context = match catch(move || serde_json::from_str::<Context>(&t2)) {
+        Ok(Ok(c)) => c,
+        Ok(Err(e)) => return Err(("reload-error".into(), first_line(&e.to_string()))),
+        Err(p) => return Err(("reload-panic".into(), p)),
+    };
+    if !contexts_deep_equal(&octx, &reloaded) {
+        return Err(("reload-not-deep-equal".into(), "optimised context differs from its reloaded copy".into()));
+    }
+    let rg = reloaded.get_main_graph().unwrap();
+    for (x, y) in og.get_nodes().iter().zip(rg.get_nodes().iter()) {
+        let (tx, ty) = (x.get_type(), y.get_type());
+        match (tx, ty) {
+            (Ok(a), Ok(b)) if a == b => {}
+            (a, b) => return Err(("stored-type-differs-from-inferred".into(), format!("node {} ({}): stored {:?}, re-inferred {:?}", x.get_id(), x.get_operation(), a.map(|t| format!("{}", t)).ok(), b.map(|t| format!("{}", t)).ok()))),
+        }
+    }
+    let rplan = Plan::new(&rg).map_err(|e| ("reloaded-not-inlined".to_string(), e))?;
+    // (1) (2) values, with replayed randomness
+    for (k, iv) in inputs.iter().enumerate() {
+        let mut ev = new_eval(17 + k as u64);
+        let orig = match run_global(&plan, iv, &mut ev, &mut crate::exec::RealRandomness) {
+            Ok(v) => v,
+            Err(_) => continue, // the original itself fails on this input (data precondition): nothing to preserve
+        };
+        st.evals += 1;
+        let mut script = HashMap::new();
+        for pn in plan.nodes.iter() {
+            if pn.op.is_randomizing().unwrap_or(false) {
+                if let Some(im) = fwd.get(&(pn.node.get_id() as usize)) {
+                    script.insert(*im, orig[pn.node.get_id() as usize].clone());
+                    st.randoms_replayed += 1;
+                }
+            }
+        }
+        for (which, p) in [("optimised", &oplan), ("reloaded", &rplan)] {
+            let mut oracle = ReplayRandom { script: script.clone(), missing: 0 };
+            let mut ev2 = new_eval(99);
+            let res = match run_global(p, iv, &mut ev2, &mut oracle) {
+                Ok(v) => v,
+                Err((i, m)) => return Err((format!("{}-evaluation-fails", which), format!("node {} ({}): {}", i, p.nodes[i].op, m))),
+            };
+            if oracle.missing > 0 && live_has_random(p) {
+                return Err(("random-node-without-preimage".into(), format!("{} graph draws {} random values that no original node drew", which, oracle.missing)));
+            }
+            if res[p.output] != orig[plan.output] {
+                return Err((format!("{}-output-differs", which), format!("output {} instead of {}", vals::show(&res[p.output], &p.nodes[p.output].ty), vals::show(&orig[plan.output], &plan.nodes[plan.output].ty))));
+            }
+            if which == "optimised" {
+                for (o, im) in fwd.iter() {
+                    st.nodes_compared += 1;
+                    if res[*im] != orig[*o] {
+                        return Err(("mapped-node-value-differs".into(), format!("original node {} ({}) = {} but its image {} ({}) = {}", o, plan.nodes[*o].op, vals::show(&orig[*o], &plan.nodes[*o].ty), im, p.nodes[*im].op, vals::show(&res[*im], &p.nodes[*im].ty))));
+                    }
+                }
+            }
+        }
+    }
+    Ok(())
+}
+
+fn live_has_random(p: &Plan) -> bool {
+    let live = live_nodes(&p.graph);
+    p.nodes.iter().any(|n| live.contains(&n.node.get_id()) && matches!(n.op, Operation::Random(_)))
+}
+
+fn recipes(thorough: bool) -> Vec<Recipe> {
+    let mut out = vec![];
+    let mut seen = HashSet::new();
+    let mut fams = gen::families(thorough);
+    // constant sub-expressions: two constant leaves next to an input
+    let i32_2 = array_type(vec![2], INT32);
+    fams.push(vec![Leaf::Const(i32_2.clone(), vec![7, 9]), Leaf::Const(i32_2.clone(), vec![1, (-3i128) as u128]), Leaf::Input(i32_2)]);
+    for (fi, leaves) in fams.into_iter().enumerate() {
+        let base = Recipe { leaves: leaves.clone(), steps: vec![] };
+        let base_types: Vec<Type> = leaves.iter().map(|l| match l { Leaf::Input(t) => t.clone(), Leaf::Const(t, _) => t.clone() }).collect();
+        for (rec, tys) in gen::extend(&base, &base_types) {
+            if seen.insert(rec.desc()) {
+                out.push(rec.clone());
+            }
+            if !thorough && fi >= 3 && fi != 7 {
+                continue;
+            }
+            for (rec2, tys2) in gen::extend(&rec, &tys) {
+                if seen.insert(rec2.desc()) {
+                    out.push(rec2.clone());
+                }
+                if thorough && fi < 2 && rec2.steps[1].operands().len() == 1 {
+                    for (rec3, _) in gen::extend(&rec2, &tys2) {
+                        if rec3.steps[2].operands().len() == 1 && seen.insert(rec3.desc()) {
+                            out.push(rec3);
+                        }
+                    }
+                }
+            }
+        }
+    }
+    out
+}
+
+pub fn run(r: &Report) -> i32 {
+    let thorough = r.tier.thorough();
+    let recs = recipes(thorough);
+    r.count("recipes", recs.len() as u64);
+    let n_inputs = if thorough { 4 } else { 2 };
+    // part 1: generated inlined graphs x decoration variants
+    let results: Vec<Vec<(usize, Result<Stats, (String, String)>, String)>> = recs
+        .par_iter()
+        .map(|rec| {
+            let mut v = vec![];
+            for variant in 0..VARIANTS.len() {
+                let ctx = match build_variant(rec, variant) {
+                    Ok(c) => c,
+                    Err(_) => continue,
+                };
+                let types = mpcx::input_types(&ctx);
+                let inputs = gen::input_vectors(&types, n_inputs);
+                let mut st = Stats { evals: 0, nodes_compared: 0, removed_nodes: 0, sends_checked: 0, randoms_replayed: 0 };
+                let res = check_context(&ctx, &inputs, &mut st);
+                let txt = if res.is_err() { serde_json::to_string(&ctx).unwrap() } else { String::new() };
+                v.push((variant, res.map(|_| st), txt));
+            }
+            v
+        })
+        .collect();
+    for (rec, per) in recs.iter().zip(results.into_iter()) {
+        for (variant, res, txt) in per {
+            r.count("programs", 1);
+            r.count(&format!("variant_{}", VARIANTS[variant]), 1);
+            match res {
+                Ok(st) => {
+                    r.count("evaluations", st.evals);
+                    r.count("mapped_nodes_compared", st.nodes_compared);
+                    r.count("nodes_removed_by_optimizer", st.removed_nodes);
+                    r.count("send_annotations_checked", st.sends_checked);
+                    r.count("random_draws_replayed", st.randoms_replayed);
+                    if st.removed_nodes > 0 {
+                        r.count("programs_changed_by_optimizer", 1);
+                        r.distinct(hash_str(&format!("{}{}", rec.desc(), variant)));
+                    }
+                    if r.want_sample() && st.removed_nodes > 2 {
+                        r.sample(json!({"recipe": rec.desc(), "variant": VARIANTS[variant], "nodes_removed": st.removed_nodes, "mapped_nodes_compared": st.nodes_compared}));
+                    }
+                }
+                Err((kind, msg)) => {
+                    let class = c01::recipe_prog(rec).class;
+                    r.violation(
+                        &format!("C06:{}:{}", kind, VARIANTS[variant]),
+                        &format!("{} variant {} [{}]: {}", rec.desc(), VARIANTS[variant], class, msg),
+                        json!({"context": txt, "n_inputs": n_inputs, "kind": "generated"}),
+                    );
+                }
+            }
+        }
+    }
+    // part 2: the optimiser's real workload - compiled contexts before the final optimisation
+    let progs: Vec<c01::Prog> = {
+        let mut p = c01::generated_programs(r);
+        p.retain(|x| x.outs.is_none());
+        if !thorough {
+            p = p.into_iter().step_by(3).collect();
+        }
+        p.extend(super::curated::programs(false));
+        p
+    };
+    let compiled: Vec<Option<Result<Stats, (String, String, String)>>> = progs
+        .par_iter()
+        .map(|p| {
+            let ctx = (p.build)().ok()?;
+            let n = mpcx::input_types(&ctx).len();
+            let owners = c01::covering_owners(n);
+            let ov = &owners[hash_str(&p.desc) as usize % owners.len()];
+            let outs: Vec<u8> = if hash_str(&p.desc) % 2 == 0 { vec![0] } else { vec![] };
+            let pre = unoptimised_compiled(&ctx, ov, &outs)?;
+            let ptypes = mpcx::input_types(&pre);
+            let src_types = mpcx::input_types(&ctx);
+            let plain = gen::input_vectors(&src_types, 2);
+            let inputs: Vec<Vec<Value>> = plain.iter().map(|iv| mpcx::global_inputs(&src_types, ov, iv, &mut || 0x2D)).collect();
+            let _ = ptypes;
+            let has_opaque_random = pre.get_main_graph().unwrap().get_nodes().iter().any(|n| matches!(n.get_operation(), Operation::CuckooToPermutation | Operation::DecomposeSwitchingMap(_)));
+            if has_opaque_random {
+                return None;
+            }
+            let mut st = Stats { evals: 0, nodes_compared: 0, removed_nodes: 0, sends_checked: 0, randoms_replayed: 0 };
+            match check_context(&pre, &inputs, &mut st) {
+                Ok(()) => Some(Ok(st)),
+                Err((k, m)) => Some(Err((k, m, serde_json::to_string(&pre).unwrap()))),
+            }
+        })
+        .collect();
+    for (p, res) in progs.iter().zip(compiled.into_iter()) {
+        match res {
+            None => r.count("compiled_contexts_skipped", 1),
+            Some(Ok(st)) => {
+                r.count("compiled_contexts", 1);
+                r.count("evaluations", st.evals);
+                r.count("mapped_nodes_compared", st.nodes_compared);
+                r.count("nodes_removed_by_optimizer", st.removed_nodes);
+                r.count("send_annotations_checked", st.sends_checked);
+                r.count("random_draws_replayed", st.randoms_replayed);
+                r.distinct(hash_str(&format!("compiled{}", p.desc)));
+            }
+            Some(Err((kind, msg, txt))) => r.violation(
+                &format!("C06:{}:compiled", kind),
+                &format!("compiled {}: {}", p.desc, msg),
+                json!({"context": txt, "kind": "compiled", "desc": p.desc}),
+            ),
+        }
+    }
+    r.finish(
+        "exploration",
+        "part 1: every builder-accepted recipe of depth 1-2 (thorough: unary depth 3) over the E2 alphabet (tuples/vectors/zip and getters, A2B/B2A, duplicated operands, constants incl. constant sub-expressions) x 9 decoration variants (plain, unused named inputs, dangling nodes, annotated NOPs + Private, Random nodes, A2B/B2A chains, duplicated steps, all-constant leaves, PRF masks) x boundary input vectors; part 2: MPC-compiled contexts of the C01 space before their final optimisation. Oracle: node-by-node execution before/after with replayed random draws - mapped nodes equal, same output, same input interface (number, order, type, name), Send annotations kept on same-valued nodes and none invented, serde reload deep-equal with stored types == re-inferred types, reloaded context evaluates identically. distinct = programs the optimiser actually changed + compiled contexts",
+        true,
+        &["optimised graphs with CuckooToPermutation/DecomposeSwitchingMap (internal random draws that cannot be replayed) are skipped in part 2"],
+        &["evaluations", "programs", "programs_changed_by_optimizer", "mapped_nodes_compared", "send_annotations_checked", "random_draws_replayed", "compiled_contexts"],
+    )
+}
+
+/// the compiler pipeline up to (not including) the final optimize_context
+fn unoptimised_compiled(ctx: &Context, owners: &[mpcx::Owner], outs: &[u8]) -> Option<Context> {
+    use ciphercore_base::mpc::mpc_compiler::{prepare_context, prepare_for_mpc_evaluation, IOStatus};
+    let ins: Vec<IOStatus> = owners.iter().map(|o| o.status()).collect();
+    let outs: Vec<IOStatus> = outs.iter().map(|i| IOStatus::Party(*i as u64)).collect();
+    let cfg = mpcx::inline_config(&InlineMode::Simple);
+    let c = ctx.clone();
+    match catch(move || -> ciphercore_base::errors::Result<Context> {
+        let p = prepare_context(c, cfg.clone(), SimpleEvaluator::new(Some([7u8; 16]))?, false)?;
+        let m = prepare_for_mpc_evaluation(&p.get_context(), vec![ins], vec![outs], cfg)?;
+        Ok(m.get_context())
+    }) {
+        Ok(Ok(c)) => Some(c),
+        _ => None,
+    }
+}
+
+pub fn replay(_r: &Report, rec: &J) -> i32 {
+    let case = &rec["case"];
+    let ctx: Context = match serde_json::from_str(case["context"].as_str().unwrap_or("")) {
+        Ok(c) => c,
+        Err(e) => {
+            println!("cannot load context: {}", e);
+            return 2;
+        }
+    };
+    let types = mpcx::input_types(&ctx);
+    let inputs = gen::input_vectors(&types, case["n_inputs"].as_u64().unwrap_or(2) as usize);
+    let mut st = Stats { evals: 0, nodes_compared: 0, removed_nodes: 0, sends_checked: 0, randoms_replayed: 0 };
+    match check_context(&ctx, &inputs, &mut st) {
+        Ok(()) => {
+            println!("optimised context preserves values, interface, annotations and types (violation does not reproduce)");
+            0
+        }
+        Err((k, m)) => {
+            println!("observed : {} - {}", k, m);
+            1
+        }
+    }
 }
